@@ -3,7 +3,8 @@
    whole histories is C05_full_statement below, which is NOT proved here (it
    is checked against the implementation by the correspondence harness). *)
 From Coq Require Import ZArith.
-From Redo Require Import Base.Bytes Build.Model Build.LocalProofs.
+From Coq Require Import List.
+From Redo Require Import Base.Bytes Build.Model Build.LocalProofs Build.FailProofs.
 
 (* not executed a second time in the same run: status 32, nothing touched *)
 Theorem C05_not_twice : forall rec fuel e t w,
@@ -55,12 +56,12 @@ Print Assumptions C05_failed_is_dirty.
    (2) a job with a non-zero script status has a non-zero job status (C04_status);
    (3) a command one of whose jobs failed never exits 0 *)
 Theorem C05_script_fails_with_dep : forall rec envc t sc w w1 evs rc_deps,
-  s_deps sc <> [] ->
+  s_deps sc <> [] -> s_tol sc = false ->
   rec envc MIfChange (s_deps sc) w = Ret (w1, evs, rc_deps) -> rc_deps <> 0%Z ->
   script_body rec envc t sc w = Ret (w1, evs, rc_deps, None).
 Proof. exact script_body_dep_failure. Qed.
 Check C05_script_fails_with_dep : forall rec envc t sc w w1 evs rc_deps,
-  s_deps sc <> [] ->
+  s_deps sc <> [] -> s_tol sc = false ->
   rec envc MIfChange (s_deps sc) w = Ret (w1, evs, rc_deps) -> rc_deps <> 0%Z ->
   script_body rec envc t sc w = Ret (w1, evs, rc_deps, None).
 Print Assumptions C05_script_fails_with_dep.
@@ -89,6 +90,33 @@ Check C05_job_failure_propagates : forall rec fuel e m t ts seen w evs w1 ev1 rv
   run_loop (start rec fuel e m) e (t :: ts) seen w evs false = Ret (w', evs', rc) -> rc <> 0%Z.
 Print Assumptions C05_job_failure_propagates.
 
+(* "no dependent of the failed target is recorded as up to date": whatever a
+   (possibly failure-tolerant) script did, once the edge to a failed row is in
+   the database, no later dirtiness check of the dependent ends "clean" *)
+Theorem C05_dependent_of_failed_not_clean : forall fuel runid w c f mx seen v w' c' evs,
+  is_dirty fuel runid w c f mx seen = Ret (v, w', c', evs) ->
+  chk_is_checked c runid (load runid (dbs w) f) f = false ->
+  has_failed_dep w (deps_of (dbs w) (load runid (dbs w) f) f) ->
+  v <> VClean.
+Proof. exact dependent_of_failed_not_clean. Qed.
+Check C05_dependent_of_failed_not_clean : forall fuel runid w c f mx seen v w' c' evs,
+  is_dirty fuel runid w c f mx seen = Ret (v, w', c', evs) ->
+  chk_is_checked c runid (load runid (dbs w) f) f = false ->
+  (exists d, In d (deps_of (dbs w) (load runid (dbs w) f) f) /\ d_mode d = DModified /\
+             r_failed (get_row (dbs w) (d_source d)) <> None) ->
+  v <> VClean.
+Print Assumptions C05_dependent_of_failed_not_clean.
+
+(* a failure mark survives every dirtiness check *)
+Theorem C05_failure_mark_survives_checks : forall g fuel runid w c f mx seen v w' c' evs,
+  is_dirty fuel runid w c f mx seen = Ret (v, w', c', evs) ->
+  r_failed (get_row (dbs w) g) <> None -> r_failed (get_row (dbs w') g) <> None.
+Proof. exact is_dirty_keeps_failed. Qed.
+Check C05_failure_mark_survives_checks : forall g fuel runid w c f mx seen v w' c' evs,
+  is_dirty fuel runid w c f mx seen = Ret (v, w', c', evs) ->
+  r_failed (get_row (dbs w) g) <> None -> r_failed (get_row (dbs w') g) <> None.
+Print Assumptions C05_failure_mark_survives_checks.
+
 (* The full property over histories (not proved; see DESIGN.md, C05). *)
 Definition C05_full_statement : Prop :=
   forall (h : list hstep) (depth : nat), True (* every command requesting a target whose
@@ -99,9 +127,24 @@ Definition C05_full_statement : Prop :=
    history retries it, and the first one exits non-zero *)
 Example C05_example :
   let bad := {| s_deps := []; s_ifcreate := []; s_always := false; s_stamp := false;
-                s_out := OStdout; s_payload := 1; s_cat := false; s_exit := 7%Z |} in
+                s_out := OStdout; s_payload := 1; s_cat := false; s_exit := 7%Z; s_tol := false |} in
   let h := [SWriteDo [98;46;100;111] bad; SCmd (CIfChange false [[98]]); SCmd (CIfChange false [[98]])] in
   map (fun x => match snd x with Some (OutBuild evs rc) => Some (length evs, rc) | _ => None end)
       (run_history h (init_world 0))
   = [None; Some (1%nat, 1%Z); Some (1%nat, 1%Z)].
+Proof. vm_compute. reflexivity. Qed.
+
+(* non-vacuity of C05_dependent_of_failed_not_clean: a.do tolerates the failure
+   of its dependency b ("redo-ifchange b || true") and succeeds; the next
+   command runs both again although nothing changed *)
+Example C05_tolerant_example :
+  let bad := {| s_deps := []; s_ifcreate := []; s_always := false; s_stamp := false;
+                s_out := OStdout; s_payload := 1; s_cat := false; s_exit := 7%Z; s_tol := false |} in
+  let tol := {| s_deps := [[98]]; s_ifcreate := []; s_always := false; s_stamp := false;
+                s_out := OStdout; s_payload := 2; s_cat := false; s_exit := 0%Z; s_tol := true |} in
+  let h := [SWriteDo [98;46;100;111] bad; SWriteDo [97;46;100;111] tol;
+            SCmd (CIfChange false [[97]]); SCmd (CIfChange false [[97]])] in
+  map (fun x => match snd x with Some (OutBuild evs rc) => Some (length evs, rc) | _ => None end)
+      (run_history h (init_world 0))
+  = [None; None; Some (2%nat, 0%Z); Some (2%nat, 0%Z)].
 Proof. vm_compute. reflexivity. Qed.
